@@ -9,7 +9,7 @@ exec 9>/tmp/seedwt/.lock; flock 9
 WT="/tmp/seedwt/wt"
 git -C /repo worktree remove --force "$WT" >/dev/null 2>&1; rm -rf "$WT"; git -C /repo worktree prune
 git -C /repo worktree add --detach "$WT" HEAD >/dev/null 2>&1 || exit 3
-if ! git -C "$WT" apply "$SEED/patch.diff"; then echo "PATCH-DOES-NOT-APPLY $SEED"; git -C /repo worktree remove --force "$WT"; exit 3; fi
+if ! git -C "$WT" apply "$SEED/patch.diff" 2>/dev/null && ! (cd "$WT" && patch -p1 -F3 -s < "$SEED/patch.diff"); then echo "PATCH-DOES-NOT-APPLY $SEED"; git -C /repo worktree remove --force "$WT"; exit 3; fi
 cd /verif && CV_REPO="$WT" ./check "$PID" --tier "$TIER"; RC=$?
 echo "seedtest $(basename "$SEED") property=$PID exit=$RC"
 git -C /repo worktree remove --force "$WT"
